@@ -20,8 +20,8 @@ nesting; plus every ASN.1 text of the project's own tests) under 1..4 mutations 
 (delete, duplicate, swap, insert a token of the ASN.1 vocabulary: keywords, `::=`, brackets, `...`,
 numbers incl. 99999999999999999999999 and -9223372036854775809, MIN/MAX, identifiers incl. the
 module's own names, literals opened and not closed, tags, `/*` `*/` `--`), random token soups with
-and without a module frame, and three structured families around the known defects (reference
-graphs, self-imports, nesting depth).
+and without a module frame, and three structured families around the defects found (reference
+graphs and self-imports — repaired, the families stay as regression corpus —, nesting depth).
 
 Oracle (on the implementation's answer alone): `ok` and `err …` are fine; `panic tokenizer` is fine
 only if an independent reading of the text (checks/c13.py `ends_in_block_comment`) says that the
@@ -447,13 +447,15 @@ class FuzzStream(runner.Stream):
     def witnesses(self):
         out = []
         for text in [
-            # reference cycles followed by TagResolver (to_rust): stack overflow
+            # reference cycles followed by TagResolver (to_rust): were a stack overflow (repaired:
+            # stack of the names being resolved), must answer `ok`
             HDR + "A ::= A\nEND",
             HDR + "A ::= CHOICE { x INTEGER, y CHOICE { z A } }\nEND",
             HDR + "A ::= B\nB ::= A\nEND",
             HDR + "A ::= CHOICE { x A }\nEND",
             HDR + "R ::= CHOICE { x R, y INTEGER }\nS ::= SET { a R, b [APPLICATION 1] BOOLEAN }\nEND",
-            # import cycle followed by ResolveScope::value_reference / definition: stack overflow
+            # import cycle followed by ResolveScope::value_reference / definition: were a stack
+            # overflow (repaired: at most scope.len() imports are followed), must answer `err resolve:…`
             HDR + "IMPORTS x FROM M;\nA ::= INTEGER (0..x)\nEND",
             "Selfish DEFINITIONS ::= BEGIN IMPORTS ghost FROM Selfish; A ::= INTEGER (0..ghost) END",
             "Foo_Module DEFINITIONS ::= BEGIN IMPORTS n FROM FooModule; A ::= OCTET STRING (SIZE(n)) END",
@@ -528,10 +530,10 @@ class FuzzStream(runner.Stream):
                           min_max_explicit=rng.chance(1, 10))
             bases.append(G.render(p.module(m), None if i % 3 == 0 else rng))
         self._kinds = kinds
-        # front_gen lets a definition refer to itself (`Zave ::= Zave`): such a base makes every
-        # mutant abort the harness process; keep a handful, the family `refgraph` covers them
+        # front_gen lets a definition refer to itself (`Zave ::= Zave`): before the repair of
+        # TagResolver such a base made every mutant abort the harness process; they come last
         cyclic = [b for b in bases if tag_cycle(lex(b))]
-        return [b for b in bases if not tag_cycle(lex(b))] + cyclic[:4]
+        return [b for b in bases if not tag_cycle(lex(b))] + cyclic
 
     def vocab_token(self, rng, own):
         c = rng.below(16)
@@ -716,8 +718,8 @@ class FuzzStream(runner.Stream):
                 wrap = r.choice(["A ::= INTEGER ({lo}..{hi}{ext})", "A ::= SEQUENCE {{ a INTEGER ({lo}..{hi}{ext}) OPTIONAL }}",
                                  "A ::= SEQUENCE OF INTEGER ({lo}..{hi}{ext})", "A ::= OCTET STRING (SIZE({lo}..{hi}{ext}))"])
                 reqs.append(self.req(HDR + "x INTEGER ::= -7\n" + wrap.format(lo=lo, hi=hi, ext=ext) + "\nEND", "ranges"))
-        # the families that abort the process often come last (vlib.run_lines re-sends the rest of
-        # the stream after every abort)
+        # the families that aborted the process before the repairs come last (vlib.run_lines
+        # re-sends the rest of the stream after every abort)
         r = rng.fork("graph")
         for i in range(self.n(3000, 9000, tier)):
             reqs.append(self.req(self.ref_graph_module(r), "refgraph"))
@@ -774,8 +776,8 @@ class FuzzStream(runner.Stream):
         toks = lex(unhex_text(req.split(" ")[2]))
         if nesting_depth(toks) >= NEST_LIMIT:
             return "front.nesting_depth"
-        if tag_cycle(toks) or import_cycle(toks):
-            return "front.cyclic_reference"
+        # (reference / import cycles were finding front.cyclic_reference; repaired, an abort or
+        #  panic on such a text is a violation like any other)
         return None
 
     def tag(self, req, ans):
@@ -818,7 +820,7 @@ class Spec(runner.Spec):
         "dev profile (overflow checks and debug assertions on); 8 MiB main-thread stack of the harness process",
         "termination is proved for the Lean mirror of the parser (every token list) — the real recursive descent additionally needs stack proportional to the nesting depth of the text (finding front.nesting_depth)",
         "the tokenizer's i32 nesting counter overflows only after 2^31 unclosed `/*` (>= 4 GiB of text): modelled, not exercised",
-        "resolver totality is proved under acyclic imports, TagResolver totality (to_rust) under acyclic type references; both full statements are refuted in Props/C14.lean and are finding front.cyclic_reference",
+        "resolver totality and TagResolver totality (to_rust) are proved for every module, import and reference cycles included (Props/C14.lean `resolver_total`, `resolve_total`, `tag_resolver_total_full`); the cyclic witnesses of the former finding front.cyclic_reference stay in the stream as regression corpus",
         "to_rust / to_protobuf are covered by the panic-site table of Props/C14.lean and by this stream's oracle, not by a Lean mirror of their own (TagResolver: Codegen/Tags.lean, property C16)",
         "the driver op `parse fuzz` answers `skip` on texts with comment openers, control or non-ASCII characters (its tokenizer is the blank/separator splitter); the driver op `front total` runs the tokenizer model and skips only a `'` literal that spans lines (the parser model rebuilds literals without columns) and non-ASCII numeric characters (read_oid's char::is_numeric is modelled for ASCII)",
         "Rust semantics of the mirrored code is tied to the Lean mirror only by differential execution",
